@@ -20,7 +20,7 @@ func init() {
 		Level: "model_checking",
 		Rule: "bounded-exhaustive: elements {audio, img, link, script (AllowUnsafe), video} x every attribute list <=4 (thorough 5) over {crossorigin valueless / empty / anonymous / use-credentials / other / upper-case name, another allowed attribute, a disallowed attribute}, " +
 			"and iframe x every attribute list <=3 over sandbox values (token sequences mixing listed, unlisted-but-known and unknown tokens, duplicates, upper case, space / tab / newline separators), repeated attributes, another allowed attribute; " +
-			"crossed with crossorigin / sandbox admitted by AllowAttrs or not and with every subset of the fourteen sandbox values of size <=2 plus the full set (thorough: all 16384 subsets on the single-attribute layer). " +
+			"crossed with crossorigin / sandbox admitted by AllowAttrs per element, through an element pattern only, globally or not at all, with the sandbox list set once or twice (the last call decides), and with every subset of the fourteen sandbox values of size <=2 plus the full set (thorough: all 16384 subsets on the single-attribute layer). " +
 			"Oracle: each listed media element emitted with >=1 attribute has >=1 crossorigin and all of them equal anonymous; each iframe emitted with attributes has sandbox and every sandbox attribute's tokens are a duplicate-free subset of the policy's list. non-trivial = a crossorigin / sandbox attribute was added or rewritten.",
 		Assumptions: []string{"sandbox tokens are split on ASCII whitespace by the oracle"},
 		QuickBudget: 50, ThoroughBudget: 800,
